@@ -159,13 +159,17 @@ inductive Chain (frames : List Ref.Frame) : Nat → List (Option Nat) → Prop
       frames[env]? = some fr → fr.parent = some p → p < env → Chain frames p rest →
       Chain frames env (some env :: rest)
 
-structure Rel (s : St) (rs : Ref.St) (env : Nat) : Prop where
+/-- the part of the relation that concerns scopes, heap and trace -/
+structure RelCore (s : St) (rs : Ref.St) (env : Nat) : Prop where
   len : s.scopes.length = rs.frames.length
   vars : ∀ i x, (scopeOf s i).vars.lookup x = (rs.frames.getD i {}).vars.lookup x
   nofn : ∀ i, (scopeOf s i).isFunction = false
   chain : Chain rs.frames env s.linear
   heap : s.heap = rs.heap
   trace : s.trace = rs.trace
+
+/-- … and the current function is a top-level one: no parent, closing over the global scope only -/
+structure Rel (s : St) (rs : Ref.St) (env : Nat) : Prop extends RelCore s rs env where
   fnpar : (fnOf s s.curfunc).parent = none
   fnclo : (fnOf s s.curfunc).closing = [some 0]
 
@@ -231,6 +235,11 @@ theorem lookupUntilFn_chain_none {s : St} {frames} (x : String) (cc : Bool)
     | none => rw [hl] at hn; exact ih hn
     | some v => rw [hl] at hn; cases hn
 
+/-- stage 1 (and stage 3) of `LexicalLookupSymbol` is the reference lookup -/
+theorem RelCore.stage1 {s rs env} (h : RelCore s rs env) (x : String) (cc : Bool) :
+    lookupUntilFn s x cc s.linear = Ref.lookup rs env x :=
+  lookupUntilFn_chain h.vars h.nofn x cc h.chain _ (by have := h.chain.lt; omega)
+
 /-- Under `Rel`, the three-stage `LexicalLookupSymbol` is the reference lookup. -/
 theorem Rel.lexLookup {s rs env} (h : Rel s rs env) (x : String) :
     lexLookup s x = Ref.lookup rs env x := by
@@ -245,8 +254,11 @@ theorem Rel.lexLookup {s rs env} (h : Rel s rs env) (x : String) :
     simp only [h.fnpar, Option.isSome_none, Bool.false_eq_true, if_false, h.fnclo, lookupUntilFn, h0, h.nofn 0,
       h1 true, hl]
 
+theorem RelCore.jmp {s rs env} (h : RelCore s rs env) (p : Int) (d : List (Option Val)) : RelCore (s.jmp p d) rs env :=
+  ⟨h.len, h.vars, h.nofn, h.chain, h.heap, h.trace⟩
+
 theorem Rel.jmp {s rs env} (h : Rel s rs env) (p : Int) (d : List (Option Val)) : Rel (s.jmp p d) rs env :=
-  ⟨h.len, h.vars, h.nofn, h.chain, h.heap, h.trace, h.fnpar, h.fnclo⟩
+  ⟨h.toRelCore.jmp p d, h.fnpar, h.fnclo⟩
 
 /-! lookups read the scope table, the function table, the linear stack and `curfunc` only -/
 
@@ -368,14 +380,14 @@ theorem scopeOf_bind (s : St) (id : Nat) (x : String) (v : Val) (i : Nat) :
     simp [hi, this, scopeOf]
 
 /-- Binding `x := v` in scope `id` on both sides keeps the relation. -/
-theorem Rel.bind {s rs env} (h : Rel s rs env) (id : Nat) (hid : id < rs.frames.length) (x : String) (v : Val) :
-    Rel (s.bind id x v) (Ref.setVar rs id x v) env := by
+theorem RelCore.bind {s rs env} (h : RelCore s rs env) (id : Nat) (hid : id < rs.frames.length) (x : String) (v : Val) :
+    RelCore (s.bind id x v) (Ref.setVar rs id x v) env := by
   obtain ⟨fr, hfr⟩ : ∃ fr, rs.frames[id]? = some fr := ⟨rs.frames[id], by simp [hid]⟩
   have hset : Ref.setVar rs id x v = { rs with frames := rs.frames.set id { fr with vars := VM.assocSet fr.vars x v } } := by
     unfold Ref.setVar; rw [hfr]; rfl
   have hlen : id < s.scopes.length := by rw [h.len]; exact hid
   rw [hset]
-  refine ⟨?_, ?_, ?_, ?_, h.heap, h.trace, h.fnpar, h.fnclo⟩
+  refine ⟨?_, ?_, ?_, ?_, h.heap, h.trace⟩
   · show (s.scopes.set id _).length = (rs.frames.set id _).length
     simp [h.len]
   · intro i y
@@ -398,6 +410,10 @@ theorem Rel.bind {s rs env} (h : Rel s rs env) (id : Nat) (hid : id < rs.frames.
     · exact h.nofn id
     · exact h.nofn i
   · exact Chain.set_vars hfr _ h.chain
+
+theorem Rel.bind {s rs env} (h : Rel s rs env) (id : Nat) (hid : id < rs.frames.length) (x : String) (v : Val) :
+    Rel (s.bind id x v) (Ref.setVar rs id x v) env :=
+  ⟨h.toRelCore.bind id hid x v, h.fnpar, h.fnclo⟩
 
 /-! ## Frames only grow, parents never change -/
 
@@ -472,10 +488,10 @@ theorem scopeOf_pushScope (s : St) (i : Nat) :
     · rw [List.getElem?_eq_none (by simp; omega)]; rfl
 
 /-- `addScope` on the VM, `newFrame` in the reference evaluator -/
-theorem Rel.pushScope {s rs env} (h : Rel s rs env) :
-    Rel s.pushScope (Ref.newFrame rs env).2 rs.frames.length := by
+theorem RelCore.pushScope {s rs env} (h : RelCore s rs env) :
+    RelCore s.pushScope (Ref.newFrame rs env).2 rs.frames.length := by
   have hlt := h.chain.lt
-  refine ⟨?_, ?_, ?_, ?_, h.heap, h.trace, h.fnpar, h.fnclo⟩
+  refine ⟨?_, ?_, ?_, ?_, h.heap, h.trace⟩
   · show (s.scopes ++ [_]).length = (rs.frames ++ [_]).length
     simp [h.len]
   · intro i x
@@ -510,8 +526,16 @@ theorem Chain.tail {frames : List Ref.Frame} {fr env : Nat} {lin : List (Option 
     exact hrest
 
 /-- `removeScope`: back in the parent environment -/
+theorem RelCore.popScope {s rs fr env} (h : RelCore s rs fr) (f : Ref.Frame) (hf : rs.frames[fr]? = some f)
+    (hp : f.parent = some env) : RelCore s.popScope rs env :=
+  ⟨h.len, h.vars, h.nofn, h.chain.tail f hf hp, h.heap, h.trace⟩
+
+theorem Rel.pushScope {s rs env} (h : Rel s rs env) :
+    Rel s.pushScope (Ref.newFrame rs env).2 rs.frames.length :=
+  ⟨h.toRelCore.pushScope, h.fnpar, h.fnclo⟩
+
 theorem Rel.popScope {s rs fr env} (h : Rel s rs fr) (f : Ref.Frame) (hf : rs.frames[fr]? = some f)
     (hp : f.parent = some env) : Rel s.popScope rs env :=
-  ⟨h.len, h.vars, h.nofn, h.chain.tail f hf hp, h.heap, h.trace, h.fnpar, h.fnclo⟩
+  ⟨h.toRelCore.popScope f hf hp, h.fnpar, h.fnclo⟩
 
 end ZygoVerif.Sim
